@@ -41,7 +41,7 @@ Theorem get_refines_offered_mem : forall H mx ops,
                H b = h /\ In b (flat_map (offered H) ops)) /\
   (forall b, In b (flat_map (offered H) ops) ->
              mem_get (fst (mem_run H (mem_new mx) ops)) (H b) = Some b \/ Collision H).
-Proof. intros H mx ops. split; [apply mem_get_sound | apply mem_get_complete]. Qed.
+Proof. exact mem_get_refines. Qed.
 Check get_refines_offered_mem : forall H mx ops,
   (forall h b, mem_get (fst (mem_run H (mem_new mx) ops)) h = Some b ->
                H b = h /\ In b (flat_map (offered H) ops)) /\
@@ -54,7 +54,7 @@ Theorem get_refines_offered_disk : forall H ops, forallb is_api ops = true ->
                H b = h /\ In b (flat_map (offered H) ops)) /\
   (forall b, In b (flat_map (offered H) ops) ->
              disk_get H (fst (disk_run H (disk_open []) ops)) (H b) = OBytes (Some b) \/ Collision H).
-Proof. intros H ops Hok. split; [intros h b; apply disk_get_sound, Hok | intros b; apply disk_get_complete, Hok]. Qed.
+Proof. exact disk_get_refines. Qed.
 Check get_refines_offered_disk : forall H ops, forallb is_api ops = true ->
   (forall h b, disk_get H (fst (disk_run H (disk_open []) ops)) h = OBytes (Some b) ->
                H b = h /\ In b (flat_map (offered H) ops)) /\
@@ -282,11 +282,7 @@ Theorem withheld_or_corrupt_is_obstruction_cas : forall H mats segrefs retrefs c
   (find N.compare (cref_hash r) cas = None -> cas_check H mats segrefs retrefs cas <> CASOk) /\
   (forall orig c, H orig = cref_hash r -> find N.compare (cref_hash r) cas = Some c -> c <> orig ->
      cas_check H mats segrefs retrefs cas <> CASOk \/ Collision H).
-Proof.
-  intros H mats segrefs retrefs cas r Hin. split.
-  - apply cas_withheld_is_obstruction; exact Hin.
-  - intros orig c. apply cas_corrupt_is_obstruction; exact Hin.
-Qed.
+Proof. exact cas_withheld_or_corrupt. Qed.
 Check withheld_or_corrupt_is_obstruction_cas : forall H mats segrefs retrefs cas r,
   In r (segrefs ++ retrefs) ->
   (find N.compare (cref_hash r) cas = None -> cas_check H mats segrefs retrefs cas <> CASOk) /\
@@ -312,11 +308,7 @@ Theorem withheld_or_corrupt_is_obstruction_sc : forall H mats pays,
      (forall m' b, In (m', b) pays -> mat_digest m' <> mat_digest m) -> sc_check H mats pays <> SCOk) /\
   (forall m c orig, In (m, c) pays -> H orig = mat_digest m -> c <> orig ->
      sc_check H mats pays <> SCOk \/ Collision H).
-Proof.
-  intros H mats pays. split.
-  - intros m. apply sc_withheld_is_obstruction.
-  - intros m c orig. apply sc_corrupt_is_obstruction.
-Qed.
+Proof. exact sc_withheld_or_corrupt. Qed.
 Check withheld_or_corrupt_is_obstruction_sc : forall H mats pays,
   (forall m, In m mats -> mat_present m = true ->
      (forall m' b, In (m', b) pays -> mat_digest m' <> mat_digest m) -> sc_check H mats pays <> SCOk) /\
@@ -357,8 +349,6 @@ Check export_import_roundtrip_sc_partial : forall H mats pays ps,
 Print Assumptions export_import_roundtrip_sc_partial.
 
 (* ---- non-vacuity: a concrete hash, concrete histories on both tiers and the index ------------ *)
-Definition toy_hash (b : bytes) : N := fold_left (fun a x => (a * 257 + x + 1) mod 1000003) b 7.
-
 Example c20_nonvacuous :
   let H := toy_hash in
   let a := [1; 2; 3] in let c := [9; 9] in
